@@ -66,3 +66,65 @@ def format_int (v : Int) : Str :=
 
 end Py
 end Hera
+
+namespace Hera
+namespace Py
+
+/-- whitespace as `str.strip()` / `int()` see it (ASCII part) -/
+def isSpace (c : Nat) : Bool := (9 ≤ c && c ≤ 13) || (28 ≤ c && c ≤ 32)
+
+def stripLeft : Str → Str
+  | c :: cs => if isSpace c then stripLeft cs else c :: cs
+  | [] => []
+
+def strip (s : Str) : Str := (stripLeft (stripLeft s).reverse).reverse
+
+def digitVal (c : Nat) : Option Nat :=
+  if 48 ≤ c ∧ c ≤ 57 then some (c - 48)
+  else if 97 ≤ c ∧ c ≤ 122 then some (c - 87)
+  else if 65 ≤ c ∧ c ≤ 90 then some (c - 55)
+  else none
+
+/-- digits of a Python integer literal body: digits `< base`, single underscores only between digits
+    (`lead` = an underscore is allowed at the very start, as after a base prefix). -/
+def parseDigits (base : Nat) (s : Str) (lead : Bool) : Option Nat :=
+  let rec go : Str → Nat → Bool → Bool → Option Nat
+    -- acc, prevUnderscore (an underscore was just read), any (some digit read)
+    | [], acc, prevU, any => if prevU || !any then none else some acc
+    | c :: cs, acc, prevU, any =>
+      if c = 95 then
+        if prevU || (!any && !lead) then none else go cs acc true any
+      else
+        match digitVal c with
+        | some d => if d < base then go cs (acc * base + d) false true else none
+        | none => none
+  go s 0 false false
+
+/-- `int(s, base)` for `base ∈ {0, 2, 8, 10, 16}`; `none` = ValueError. -/
+def parseInt (s : Str) (base : Nat) : Option Int :=
+  let s := strip s
+  let (neg, body) := match s with
+    | 45 :: r => (true, r)
+    | 43 :: r => (false, r)
+    | r => (false, r)
+  let lower (c : Nat) : Nat := if 65 ≤ c ∧ c ≤ 90 then c + 32 else c
+  let mag : Option Nat :=
+    match body with
+    | 48 :: p :: rest =>
+      let p := lower p
+      if p = 120 ∧ (base = 0 ∨ base = 16) then parseDigits 16 rest true
+      else if p = 111 ∧ (base = 0 ∨ base = 8) then parseDigits 8 rest true
+      else if p = 98 ∧ (base = 0 ∨ base = 2) then parseDigits 2 rest true
+      else if base = 0 then
+        -- decimal literal starting with 0: only zeros (and underscores) allowed
+        match parseDigits 10 body false with
+        | some 0 => some 0
+        | _ => none
+      else parseDigits base body false
+    | _ => parseDigits (if base = 0 then 10 else base) body false
+  match mag with
+  | some m => some (if neg then -(m : Int) else (m : Int))
+  | none => none
+
+end Py
+end Hera
